@@ -17,7 +17,8 @@ _LOG_FD = None          # pipe write end: completion order log for C14
 EXC_TYPES = {
     "ValueError": ValueError, "RuntimeError": RuntimeError, "ZeroDivisionError": ZeroDivisionError,
     "KeyError": KeyError, "MemoryError": MemoryError, "FloatingPointError": FloatingPointError,
-    "LinAlgError": np.linalg.LinAlgError, "ArithmeticError": ArithmeticError,
+    "LinAlgError": np.linalg.LinAlgError, "ArithmeticError": ArithmeticError, "IndexError": IndexError,
+    "AttributeError": AttributeError, "TypeError": TypeError, "OverflowError": OverflowError,
 }
 
 
